@@ -46,6 +46,9 @@ func init() {
 				Edits: []Edit{{File: "driver/generic/sendwithcallbacks.go", Old: "\t\t\t\tb = append(b, rb...)\n\t\t\t\tfb = append(fb, rb...)\n\n\t\t\t\tfor i, cb := range callbacks {", New: "\t\t\t\tif len(rb) == 0 {\n\t\t\t\t\tcontinue\n\t\t\t\t}\n\n\t\t\t\tb = append(b, rb...)\n\t\t\t\tfb = append(fb, rb...)\n\n\t\t\t\tfor i, cb := range callbacks {"}}},
 			{ID: "C18-scan-skips-spent", Desc: "scan skips once-callbacks that already fired", Rule: "C18/scan-every-callback",
 				Edits: []Edit{{File: "driver/generic/sendwithcallbacks.go", Old: "\t\t\t\tfor i, cb := range callbacks {\n\t\t\t\t\tif cb.check(b) {", New: "\t\t\t\tfor i, cb := range callbacks {\n\t\t\t\t\tif cb.Once && cb.triggered {\n\t\t\t\t\t\tcontinue\n\t\t\t\t\t}\n\n\t\t\t\t\tif cb.check(b) {"}}},
+			{ID: "C18-callbacks-sorted", Desc: "callback list sorted contains-first before the scan", Rule: "C18/list-untouched",
+				Edits: []Edit{{File: "driver/generic/sendwithcallbacks.go", Old: "\tif input != \"\" {\n\t\terr := d.Channel.WriteAndReturn([]byte(input), false)", New: "\tsort.SliceStable(callbacks, func(i, j int) bool {\n\t\treturn callbacks[i].ContainsRe == nil && callbacks[j].ContainsRe != nil\n\t})\n\n\tif input != \"\" {\n\t\terr := d.Channel.WriteAndReturn([]byte(input), false)"},
+					{File: "driver/generic/sendwithcallbacks.go", Old: "\t\"regexp\"\n", New: "\t\"regexp\"\n\t\"sort\"\n"}}},
 			{ID: "C18-needle-not-lowered", Desc: "haystack lower-cased but needle left as given", Rule: "C18/case",
 				Edits: []Edit{{File: "driver/generic/sendwithcallbacks.go", Old: "\t\tc.containsBytes = []byte(c.Contains)\n\n\t\tif c.Insensitive {\n\t\t\tc.containsBytes = bytes.ToLower(c.containsBytes)\n\t\t}", New: "\t\tc.containsBytes = []byte(c.Contains)"}}},
 			{ID: "C18-next-timeout-ignored", Desc: "NextTimeout ignored", Rule: "C18/execute",
@@ -63,6 +66,8 @@ func init() {
 }
 
 func runC18(c *Ctx, r *Report) {
+	r.Rule("C18/list-untouched", "SendWithCallbacks hands the caller's callback list to the scan unchanged (nothing can reorder it)", 1)
+	checkCallbackListUntouched(c, r, "C18/list-untouched")
 	r.Rule("C18/error-classes", "each failure site named by the property wraps the sentinel the property names (timeout / auth / connection / privilege / NETCONF / operation / platform error)", 2)
 	checkErrorClasses(c, r, "C18")
 	r.Rule("C18/trigger-table", "check(b) == (Contains!=\"\" && contains(b) || ContainsRe!=nil && re(b)) && !(NotContains!=\"\" && b contains the not-contains text), for all 128 rows", 128)
